@@ -156,7 +156,25 @@ static void restrict_layout(ALib& L, Rng& g, Out* out) {
         if (out) out->count("class:no-cells");
     }
     if (L.cells.size() >= 2 && g.chance(5)) {
-        L.cells.back().name = L.cells.front().name;  // duplicate cell name: cell_name_map keeps the last index
+        // duplicate cell name: cell_name_map keeps the last index.  build_library() resolves cells by name, so both
+        // ACells end up in the LAST Cell object (contents appended in order, properties of the last one); the
+        // library text is made to say exactly that.
+        ACell& first = L.cells.front();
+        ACell& last = L.cells.back();
+        std::string old = last.name;
+        for (auto& c : L.cells)
+            for (auto& r : c.refs)
+                if (r.target == old) r.target = first.name;
+        last.name = first.name;
+        last.polys.insert(last.polys.begin(), first.polys.begin(), first.polys.end());
+        last.paths.insert(last.paths.begin(), first.paths.begin(), first.paths.end());
+        last.labels.insert(last.labels.begin(), first.labels.begin(), first.labels.end());
+        last.refs.insert(last.refs.begin(), first.refs.begin(), first.refs.end());
+        first.polys.clear();
+        first.paths.clear();
+        first.labels.clear();
+        first.refs.clear();
+        first.props.clear();
         if (out) out->count("class:duplicate-cell-name");
     }
 }
@@ -183,7 +201,7 @@ static void run_case(Out& out, uint64_t ls, unsigned variant) {
         for (auto& p : c.paths) out.count("rep:" + std::to_string(p.rep.kind));
         for (auto& p : c.labels) out.count("rep:" + std::to_string(p.rep.kind));
     }
-    std::string res = in_child([&](FILE* o) {
+    auto work = [&](FILE* o) {
         set_error_logger(NULL);
         Built b;
         build_library(L, b);
@@ -192,7 +210,12 @@ static void run_case(Out& out, uint64_t ls, unsigned variant) {
         b.lib.write_oas(f.c_str(), 0.0, 0, (uint16_t)(cell_offset ? OASIS_CONFIG_PROPERTY_CELL_OFFSET : 0));
         std::vector<uint8_t> file = slurp(f);
         fputs(hex_bytes(file.data(), file.size()).c_str(), o);
-    }, 20);
+    };
+    if (getenv("C04W_NOFORK")) {  // debugging aid: run in this process
+        work(stdout);
+        return;
+    }
+    std::string res = in_child(work, 20);
     out.I(id, res);
 }
 
